@@ -505,12 +505,24 @@ impl Mp4Track {
                 ))?;
 
             let mut sample_offset = chunk_offset;
-            for i in first_sample_in_chunk..sample_id {
+            let stsz = &self.trak.mdia.minf.stbl.stsz;
+            if stsz.sample_size > 0 {
+                // Constant sample size: no need to walk over the (up to 2^32) earlier
+                // samples of the chunk one by one.
+                let earlier = u64::from(sample_id - first_sample_in_chunk);
                 sample_offset = sample_offset
-                    .checked_add(self.sample_size(i)? as u64)
+                    .checked_add(earlier * u64::from(stsz.sample_size))
                     .ok_or(Error::InvalidData(
                         "attempt to calculate sample offset with overflow",
                     ))?;
+            } else {
+                for i in first_sample_in_chunk..sample_id {
+                    sample_offset = sample_offset
+                        .checked_add(self.sample_size(i)? as u64)
+                        .ok_or(Error::InvalidData(
+                            "attempt to calculate sample offset with overflow",
+                        ))?;
+                }
             }
 
             Ok(sample_offset)
